@@ -133,52 +133,53 @@ def run(tier, seed, replay):
     #      up to MaxAcc accepted counters per epoch (refused calls are free)
     add("filter-design", "design", module="MCSlidingWindow", cfg="MCSlidingWindow.cfg",
         consts=filter_consts(SIZES, B, ring, 6 if big else 3, 1, not big, False),
-        workers=10 if big else 6, timeout=3400 if big else 1500, heap="12g" if big else "4g")
+        workers=10 if big else 6, timeout=7000 if big else 3000, heap="12g" if big else "4g")
     # (F2) replay graph: every state with <= n accepted counters, every call from it
     if big:
         add("filter-graph-a", "fgraph", module="MCSlidingWindow", cfg="MCSlidingWindow.cfg",
-            consts=filter_consts([1, 2, 64, 128], B, ring, 3, 1, False, True), workers=2, timeout=3000, heap="6g")
+            consts=filter_consts([1, 2, 64, 128], B, ring, 3, 1, False, True), workers=2, timeout=7000, heap="6g")
         add("filter-graph-b", "fgraph", module="MCSlidingWindow", cfg="MCSlidingWindow.cfg",
-            consts=filter_consts([63, 65, 256, 1000], B, ring, 2, 1, False, True), workers=2, timeout=3000, heap="6g")
+            consts=filter_consts([63, 65, 256, 1000], B, ring, 2, 1, False, True), workers=2, timeout=7000, heap="6g")
     else:
         add("filter-graph", "fgraph", module="MCSlidingWindow", cfg="MCSlidingWindow.cfg",
-            consts=filter_consts(SIZES, B, ring, 2, 0, False, True), workers=3, timeout=1500, heap="4g")
+            consts=filter_consts(SIZES, B, ring, 2, 0, False, True), workers=3, timeout=3000, heap="4g")
     # (F3) deep random behaviours (resets, hundreds of counters, a window that keeps sliding)
     simc = filter_consts(SIZES, B, ring, 1000, 4, False, False, rel=lambda S: rel_walk(S, B, ring[S]))
-    simc["Len"] = 150 if big else 80
-    add("filter-sim", "fsim", module="SimSlidingWindow", cfg="SimSlidingWindow.cfg", consts=simc, workers=8 if big else 2, timeout=2400 if big else 1500,
-        simulate="num=%d" % (64 if big else 8), depth=simc["Len"] + 1, seed=seed, heap="6g", keep_out=True)
+    simc["QueriesOf"] = tla_fun({S: [0] for S in SIZES}, tla_set)      # the one IsOk query that ends (and prints) a trace
+    simc["Len"] = 120 if big else 80
+    add("filter-sim", "fsim", module="SimSlidingWindow", cfg="SimSlidingWindow.cfg", consts=simc, workers=8 if big else 2, timeout=7000 if big else 3000,
+        simulate="num=%d" % (120 if big else 16), depth=simc["Len"] + 1, seed=seed, heap="6g", keep_out=True)
 
     dl_srv = "{1,90,93,180,%d}" % (3 * k["Nat"])
     dl_cli = "{1,90,93,179,180}"
     if not big:
         add("server-design", "design", module="MCUdpSession", cfg="MCUdpSession.cfg",
-            consts=sess_consts(k, "server", MaxPid=3, MaxPack=3, MaxAdv=3, Skews="{0,30}", Deltas=dl_srv), workers=3, timeout=1500, heap="4g")
+            consts=sess_consts(k, "server", MaxPid=3, MaxPack=3, MaxAdv=3, Skews="{0,30}", Deltas=dl_srv), workers=3, timeout=3000, heap="4g")
         add("client-design", "design", module="MCUdpSession", cfg="MCUdpSession.cfg",
-            consts=sess_consts(k, "client", MaxPid=2, MaxPack=3, MaxAdv=3, Deltas=dl_cli), workers=3, timeout=1500, heap="4g")
+            consts=sess_consts(k, "client", MaxPid=2, MaxPack=3, MaxAdv=3, Deltas=dl_cli), workers=3, timeout=3000, heap="4g")
         add("server-graph", "sgraph", module="MCUdpSession", cfg="MCUdpSession.cfg",
-            consts=sess_consts(k, "server", True, MaxPid=2, MaxPack=2, MaxAdv=2, Skews="{0,30}", Deltas=dl_srv), workers=2, timeout=1500, heap="4g")
+            consts=sess_consts(k, "server", True, MaxPid=2, MaxPack=2, MaxAdv=2, Skews="{0,30}", Deltas=dl_srv), workers=2, timeout=3000, heap="4g")
         add("client-graph", "sgraph", module="MCUdpSession", cfg="MCUdpSession.cfg",
-            consts=sess_consts(k, "client", True, MaxPid=2, MaxPack=3, MaxAdv=3, Deltas="{179,180}"), workers=2, timeout=1500, heap="4g")
+            consts=sess_consts(k, "client", True, MaxPid=2, MaxPack=3, MaxAdv=3, Deltas="{179,180}"), workers=2, timeout=3000, heap="4g")
     else:
         add("server-design", "design", module="MCUdpSession", cfg="MCUdpSession.cfg",
             consts=sess_consts(k, "server", CSess='{"c1","c2"}', MaxPid=3, MaxPack=4, MaxAdv=3, Skews="{0,30}", Deltas=dl_srv),
-            workers=4, timeout=3000, heap="8g")
+            workers=4, timeout=7000, heap="8g")
         add("server-design-w3", "design", module="MCUdpSession", cfg="MCUdpSession.cfg",
             consts=sess_consts(k, "server", W=3, MaxPid=5, MaxPack=5, MaxAdv=2, Skews="{0}", Deltas="{93,%d}" % (3 * k["Nat"])),
-            workers=3, timeout=3000, heap="6g")
+            workers=3, timeout=7000, heap="6g")
         add("client-design", "design", module="MCUdpSession", cfg="MCUdpSession.cfg",
-            consts=sess_consts(k, "client", MaxPid=2, MaxPack=4, MaxAdv=4, Deltas="{1,93,179,180}"), workers=6, timeout=3000, heap="10g")
+            consts=sess_consts(k, "client", MaxPid=2, MaxPack=4, MaxAdv=4, Deltas="{1,93,179,180}"), workers=6, timeout=7000, heap="10g")
         add("client-design-skew", "design", module="MCUdpSession", cfg="MCUdpSession.cfg",
-            consts=sess_consts(k, "client", MaxPid=2, MaxPack=3, MaxAdv=4, Skews="{0,30}", Deltas="{1,179,180}"), workers=3, timeout=3000, heap="6g")
+            consts=sess_consts(k, "client", MaxPid=2, MaxPack=3, MaxAdv=4, Skews="{0,30}", Deltas="{1,179,180}"), workers=3, timeout=7000, heap="6g")
         add("server-graph", "sgraph", module="MCUdpSession", cfg="MCUdpSession.cfg",
-            consts=sess_consts(k, "server", True, MaxPid=3, MaxPack=3, MaxAdv=2, Skews="{0,30}", Deltas=dl_srv), workers=2, timeout=1800, heap="6g")
+            consts=sess_consts(k, "server", True, MaxPid=3, MaxPack=3, MaxAdv=2, Skews="{0,30}", Deltas=dl_srv), workers=2, timeout=7000, heap="6g")
         add("client-graph", "sgraph", module="MCUdpSession", cfg="MCUdpSession.cfg",
-            consts=sess_consts(k, "client", True, MaxPid=2, MaxPack=3, MaxAdv=3, Deltas="{93,179,180}"), workers=2, timeout=1800, heap="6g")
+            consts=sess_consts(k, "client", True, MaxPid=2, MaxPack=3, MaxAdv=3, Deltas="{93,179,180}"), workers=2, timeout=7000, heap="6g")
     add("both-sim", "ssim", module="MCUdpSession", cfg="MCUdpSession.cfg",
         consts=sess_consts(k, "both", True, CSess='{"c1","c2"}', MaxPid=4, MaxPack=12, MaxAdv=8, Skews="{-30,0,30}",
                            Deltas="{1,2,87,90,93,177,179,180,183,186}"),
-        workers=1, timeout=900, simulate="num=%d" % (400 if big else 60), depth=45, seed=seed, heap="4g", edge_limit=400000)
+        workers=1, timeout=3000, simulate="num=%d" % (400 if big else 60), depth=45, seed=seed, heap="4g", edge_limit=400000)
 
     def do_tlc(job):
         name, kind, kw = job
@@ -209,11 +210,8 @@ def run(tier, seed, replay):
         if kind == "design":
             continue
         if kind == "fsim":
-            # one printed line per candidate last state of a simulated trace: valid behaviours that differ in the last step
+            # one printed line per simulated trace
             lines = [l for l in r.out.splitlines() if l.startswith('"TRACE ')]
-            rnd = random.Random(seed)
-            rnd.shuffle(lines)
-            lines = lines[:(1200 if big else 150)]
             behs = [json.loads(json.loads(l)[6:]) for l in lines]
             if not behs:
                 raise vlib.Broken("the filter simulation printed no behaviour:\n" + r.out[-1500:])
@@ -222,7 +220,7 @@ def run(tier, seed, replay):
             continue
         g = vlib.Graph(r)
         if kind in ("fgraph", "sgraph"):
-            paths, left = g.cover(seed=seed, max_len=14 if kind == "fgraph" else 16, max_paths=None if big else (400 if kind == "fgraph" else 1500))
+            paths, left = g.cover(seed=seed, max_len=14 if kind == "fgraph" else 16, max_paths=None if big else 1500)
             if big:
                 uncovered += left
             tlc_summary[name].update(edges=len(g.edges), paths=len(paths), uncovered_edges=left)
@@ -242,11 +240,11 @@ def run(tier, seed, replay):
 
     # ------------------------------------------------------------------ counterexamples of the design must reproduce on the code
     nrep = 0
-    fprm = {"bases": BASES, "sizes": {str(S): {"ids": alphabet(S, B, ring[S]), "ringBits": ring[S] * B} for S in SIZES}}
+    fprm = {"bases": BASES, "sizes": {str(S): {"ids": alphabet(S, B, ring[S]), "ringBits": ring[S] * B, "rel": rel_walk(S, B, ring[S])} for S in SIZES}}
     sess_prm = {"w": 2, "natTimeout": k["Nat"], "guard": 60, "d": k["D"]}
     for name, kind, kw, r in cexs:
-        beh = vlib.cex_behaviour(r.trace, obs=(lambda st: {"size": st.get("size")}) if kw["module"] == "MCSlidingWindow" else None)
-        if kw["module"] == "MCSlidingWindow":
+        beh = vlib.cex_behaviour(r.trace, obs=(lambda st: {"size": st.get("size")}) if kw["module"].endswith("SlidingWindow") else None)
+        if kw["module"].endswith("SlidingWindow"):
             res, out, rc = vlib.run_driver(binary, "TestFilter", {"behaviours": [beh], "seed": seed, "params": {"filter": fprm}}, 300)
         else:
             prm = dict(sess_prm, w=int(kw["consts"]["W"]))
@@ -260,7 +258,7 @@ def run(tier, seed, replay):
     # ------------------------------------------------------------------ replay: filter
     inputs = [{"behaviours": c, "seed": seed + i, "params": {"filter": fprm}} for i, c in enumerate(common.chunks(fbehs, 16)) if c]
     t0 = time.time()
-    outs = common.run_parallel(binary, "TestFilter", inputs, 1800) if inputs else []
+    outs = common.run_parallel(binary, "TestFilter", inputs, 3600) if inputs else []
     vlib.log("[replay] filter: %d behaviours %.1fs" % (len(fbehs), time.time() - t0))
     fsteps = fdist = 0
     for res, out, rc in outs:
@@ -289,7 +287,7 @@ def run(tier, seed, replay):
         buckets[i].append(j)
         load[i] += len(j["ids"]) ** j["depth"]
     t0 = time.time()
-    outs = common.run_parallel(binary, "TestFilterDFS", [{"seed": seed, "params": {"dfs": b}} for b in buckets if b], 3000)
+    outs = common.run_parallel(binary, "TestFilterDFS", [{"seed": seed, "params": {"dfs": b}} for b in buckets if b], 7000)
     vlib.log("[dfs] %d jobs depth %d %.1fs" % (len(dfs), depth, time.time() - t0))
     seqs = verdicts = 0
     for res, out, rc in outs:
@@ -307,7 +305,7 @@ def run(tier, seed, replay):
     for i, b in enumerate(sbehs):
         b["id"] = i + 1
     outs = common.run_parallel(binary, "TestSession",
-                               [{"behaviours": c, "seed": seed, "params": {"session": sess_prm}} for c in common.chunks(sbehs, 16) if c], 1800)
+                               [{"behaviours": c, "seed": seed, "params": {"session": sess_prm}} for c in common.chunks(sbehs, 16) if c], 3600)
     vlib.log("[replay] sessions: %d behaviours %.1fs" % (len(sbehs), time.time() - t0))
     ssteps = sdist = twins = probes = 0
     for res, out, rc in outs:
